@@ -37,6 +37,8 @@ type cfgData struct {
 	ctxEnd string
 	// longRun: keep letting timers expire for 60 rounds instead of 6
 	longRun bool
+	// closers: number of goroutines calling Close at the chosen round (default 1)
+	closers int
 	cache   bool   // b: CacheClient instead of BaseClient
 	resps   string // c: response sequence
 	qtype   client.Type
@@ -108,6 +110,17 @@ func configsBase(tier string) []xplore.Config {
 				}
 				out = append(out, xplore.Config{Name: fmt.Sprintf("b: reconnect over real client (cache=%v) over scripted impl conns=%v closeAtRound=%d", cache, sc, c), Bound: bound - 1, Data: cfgData{part: "b", attempts: sc, closeAt: c, cache: cache}})
 			}
+		}
+	}
+	// two goroutines closing at once, over transports that still hold buffered messages
+	for _, sc := range [][]string{{"bbbp"}, {"e", "bbbp"}, {"nbbp"}} {
+		for _, c := range []int{0, 1, 2} {
+			out = append(out, xplore.Config{Name: fmt.Sprintf("b: reconnect over real client (cache=false) over scripted impl conns=%v, TWO goroutines Close at round %d", sc, c), Bound: bound - 1, Data: cfgData{part: "b", attempts: sc, closeAt: c, closers: 2}})
+		}
+	}
+	for _, sc := range [][]string{{"n2err", "park"}, {"park"}} {
+		for _, c := range []int{0, 1} {
+			out = append(out, xplore.Config{Name: fmt.Sprintf("a: reconnect over scripted client attempts=%v, TWO goroutines Close at round %d", sc, c), Bound: bound - 1, Data: cfgData{part: "a", attempts: sc, closeAt: c, closers: 2}})
 		}
 	}
 	// (c) response sequences through the real gnmi client decode
@@ -436,11 +449,14 @@ func (harness) Run(cfg xplore.Config, ch vrt.Chooser, trace bool) (xplore.Outcom
 		q := client.Query{Addrs: []string{"addr"}, Target: "t", Type: client.Stream, Queries: []client.Path{{"*"}}, NotificationHandler: handler}
 		subReturned, closeReturned, closeInvoked := false, false, false
 		var subErr error
+		closeStarted, closeDone := 0, 0
 		doClose := func() {
 			closeInvoked = true
+			closeStarted++
 			tr.add("CLOSE")
 			rc.Close()
-			closeReturned = true
+			closeDone++
+			closeReturned = closeDone == closeStarted
 			tr.add("CLOSED")
 		}
 		if d.closeAt == -1 {
@@ -471,6 +487,12 @@ func (harness) Run(cfg xplore.Config, ch vrt.Chooser, trace bool) (xplore.Outcom
 		for round := 0; round < rounds; round++ {
 			if d.closeAt == round {
 				vrt.GoNamed("closer", doClose)
+				for k := 1; k < d.closers; k++ {
+					// Close is called from several goroutines at once: each of them
+					// returns only when Subscribe has returned (what "after Close
+					// returns" promises holds for every caller)
+					vrt.GoNamed(fmt.Sprintf("closer%d", k+1), doClose)
+				}
 			}
 			if d.ctxEnd == "cancel" && round == 1 {
 				tr.add("CALLER-CANCEL")
